@@ -25,7 +25,38 @@ def main():
         print("HARNESS-ERROR %s: internal error in the checker" % a.prop)
         rc = 2
     sys.stdout.flush()
-    sys.exit(rc)
+    sys.stderr.flush()
+    _kill_descendants()
+    os._exit(rc)
+
+
+def _kill_descendants():
+    """No worker or harness process may outlive the check (a surviving worker keeps the caller's pipe open: after an
+    internal error the whole command line used to hang instead of returning exit status 2)."""
+    import signal
+    me = os.getpid()
+    for _ in range(3):
+        kids = {}
+        for d in os.listdir("/proc"):
+            if d.isdigit():
+                try:
+                    with open("/proc/%s/stat" % d) as f:
+                        parts = f.read().rsplit(")", 1)[1].split()
+                    kids.setdefault(int(parts[1]), []).append(int(d))
+                except (OSError, IndexError, ValueError):
+                    pass
+        todo, found = [me], []
+        while todo:
+            for c in kids.get(todo.pop(), []):
+                found.append(c)
+                todo.append(c)
+        if not found:
+            return
+        for c in found:
+            try:
+                os.kill(c, signal.SIGKILL)
+            except OSError:
+                pass
 
 
 main()
